@@ -34,7 +34,7 @@ int main(int argc, char** argv) {
     R.init(argc, argv, "C04", "C04_relax"); quiet();
     R.rule = "one evaluation = one trajectory of the real Fokker-Planck (+ rotation) chain, invariants checked at every step; distinct = FNV of case + RMS series; trivial = none";
     R.sample_every = 100;
-    const bool T = R.thorough();
+    const bool T = true /* the wide lattices run in both tiers */; const bool D = R.thorough(); (void)D;
     std::vector<unsigned> ns = T ? std::vector<unsigned>{32, 33, 48, 64} : std::vector<unsigned>{32, 33, 48};
     std::vector<unsigned> stepss = T ? std::vector<unsigned>{50, 100} : std::vector<unsigned>{50, 100};
     std::vector<double> Tds = T ? std::vector<double>{0.5, 1, 2, 4} : std::vector<double>{1, 2};
